@@ -2,6 +2,7 @@ import PnVerif.Lemmas.Safety
 import PnVerif.Lemmas.SafetyWork
 import PnVerif.Lemmas.SafetyWf
 import PnVerif.Lemmas.SafetyStrict
+import PnVerif.Lemmas.SafetyEof
 import PnVerif.Props.C04
 /-
   C19 — memory safety; malformed files fail cleanly: THE HALF THEOREMS CAN CARRY.
@@ -281,6 +282,114 @@ theorem strict_ok_fits63 (file : Bytes) (h : Hdr) (info : Info) (hd : decodeWhol
         have h4 := postPassS_fits h' info' hp
         exact ⟨h1, h2, fun v hv => ⟨h3 v hv, h4 v hv⟩⟩
 
+/-! ### (6) trees that carry the repair of F14 (variant `eof`), and all variants together
+
+  `decodeWholeVar v` / `decodeChunkedVar v` model ncmpio_hdr_get_NC of a tree with the repairs named by
+  `v : Variant` (`int63`: patch C19-B10-5-int64-header-fields, `eof`: patch
+  C19-F14-header-read-beyond-eof).  checks/c19.py (and checks/c04.py) detect the variant of the tree
+  from witness replays. -/
+
+theorem decodeWholeV_noeof (st : Bool) (file : Bytes) :
+    decodeWholeVar { int63 := st, eof := false } file = decodeWholeS st file := by
+  unfold decodeWholeVar decodeWholeS
+  simp only [Bool.false_eq_true, if_false]
+
+/-- no repair = the code as it stands -/
+theorem variant_current (file : Bytes) : decodeWholeVar Variant.current file = decodeWhole file := by
+  unfold Variant.current
+  rw [decodeWholeV_noeof, decodeWholeS_false]
+
+/-- Every variant is conservative: what it accepts, the reader as it stands accepts with the same
+    header and layout; so every accepted header is self-consistent. -/
+theorem variant_conservative (v : Variant) (file : Bytes) (h : Hdr) (info : Info)
+    (hd : decodeWholeVar v file = .ok (h, info)) : decodeWhole file = .ok (h, info) ∧ WF h info := by
+  have hs : decodeWholeS v.int63 file = .ok (h, info) := by
+    unfold decodeWholeVar at hd
+    unfold decodeWholeS
+    cases hm : checkMagic (ztake 12 file) with
+    | error e => rw [hm] at hd; cases hd
+    | ok f =>
+      rw [hm] at hd
+      simp only [] at hd ⊢
+      cases he : v.eof with
+      | false => rw [he] at hd; simpa using hd
+      | true =>
+        rw [he] at hd
+        simp only [if_true] at hd
+        cases hr : runE (getBodyS v.int63 f) (file.drop 4) with
+        | error e => rw [hr] at hd; cases hd
+        | ok r =>
+          obtain ⟨h', s'⟩ := r
+          rw [hr] at hd
+          rw [(runE_ok _ _ _ _ hr).1]
+          exact hd
+  exact strict_conservative v.int63 file h info hs
+
+/-- The F14 repair changes nothing for a header that is completely in the file (no primitive read
+    of the run crosses the end of the file) — e.g. every file the library itself writes. -/
+theorem eof_agrees_on_complete (st : Bool) (file : Bytes) (f : Fmt) (hm : checkMagic (ztake 12 file) = .ok f)
+    (hin : inBounds (getBodyS st f) (file.drop 4) = true) :
+    decodeWholeVar { int63 := st, eof := true } file = decodeWholeVar { int63 := st, eof := false } file := by
+  unfold decodeWholeVar
+  rw [hm]
+  simp only [if_true, Bool.false_eq_true, if_false]
+  rw [runE_of_inBounds _ _ hin]
+
+/-- The result of every variant is independent of the read chunk size, for every byte string: also
+    the end-of-file test, which the C computes from the window's own bookkeeping
+    (file_size − (offset − (end − pos))), answers exactly as on the flat stream. -/
+theorem variant_chunk_independent (v : Variant) (c : Nat) (file : Bytes) :
+    decodeChunkedVar v c file = decodeWholeVar v file := by
+  cases he : v.eof with
+  | false =>
+    have h1 : decodeChunkedVar v c file = decodeChunkedS v.int63 c file := by
+      unfold decodeChunkedVar decodeChunkedS
+      simp only [he, Bool.false_eq_true, if_false]
+    have h2 : decodeWholeVar v file = decodeWholeS v.int63 file := by
+      unfold decodeWholeVar decodeWholeS
+      simp only [he, Bool.false_eq_true, if_false]
+    rw [h1, h2, chunk_independent_S]
+  | true =>
+    unfold decodeChunkedVar decodeWholeVar
+    have hc := chunkOf_ge c
+    simp only [fetch_init_eq, he, if_true]
+    simp only [take_ztake (show 12 ≤ chunkOf c by omega)]
+    cases hm : checkMagic (ztake 12 file) with
+    | error e => rfl
+    | ok f =>
+      simp only []
+      have hsim := runWE_sim (file := file) (chunk := chunkOf c) (by omega) (getBodyS v.int63 f) _ _
+        (invE_init file c (magic_length hm))
+      revert hsim
+      generalize runWE file (chunkOf c) (getBodyS v.int63 f) _ = x
+      generalize runE (getBodyS v.int63 f) (List.drop 4 file) = y
+      intro hsim
+      match x, y, hsim with
+      | .ok (a, w), .ok (b, s), ⟨hab, _⟩ => subst hab; rfl
+      | .error e, .error f', hef => cases hef; rfl
+
+/-- WITH THE F14 REPAIR THE FULL WORK BOUND HOLDS (`decode_work_bound_Statement` for the repaired
+    variant): for every read chunk size and EVERY byte string the decoder asks MPI-IO for at most one
+    chunk more than the file holds. -/
+theorem decode_work_bound_repaired (st : Bool) (c : Nat) (file : Bytes) :
+    bytesFetchedV { int63 := st, eof := true } c file ≤ file.length + chunkOf c := by
+  have hc := chunkOf_ge c
+  unfold bytesFetchedV
+  simp only [fetch_init_eq, if_true]
+  simp only [take_ztake (show 12 ≤ chunkOf c by omega)]
+  cases hm : checkMagic (ztake 12 file) with
+  | error e => simp only []; omega
+  | ok f =>
+    simp only []
+    obtain ⟨s', hi⟩ := endWinE_inv (file := file) (chunk := chunkOf c) (by omega) (getBodyS st f) _ _
+      (invE_init file c (magic_length hm))
+    have := hi.num
+    omega
+
+/-- the 40-byte F14 file: refused by the repaired reader (NC_ENOTNC), one chunk fetched -/
+theorem witness40_repaired :
+    decodeWholeVar { int63 := false, eof := true } witness40 = .error .enotnc := by rfl
+
 /-! ### the driver's verdict -/
 
 /-- What lean/Driver/C19.lean prints for a file (the guarded reader, which refuses to materialise a
@@ -349,6 +458,8 @@ def obligations : List String := [
   "decode_ok_wf", "decodeChunked_ok_wf", "open_ok_wf",
   "decode_work_bound_counterexample", "decode_work_unbounded", "decode_alloc_unbounded", "decode_work_bound_partial",
   "driver_verdict_sound", "driver_big_sound",
-  "strict_false_is_current", "strict_conservative", "strict_chunk_independent", "strict_ok_fits63"
+  "strict_false_is_current", "strict_conservative", "strict_chunk_independent", "strict_ok_fits63",
+  "variant_current", "variant_conservative", "eof_agrees_on_complete", "variant_chunk_independent",
+  "decode_work_bound_repaired", "witness40_repaired"
 ]
 end PnVerif.Props.C19
